@@ -95,6 +95,21 @@ def expand(job):
     for _ in range(job["n"]):
         sp = gen.spelling(rnd)
         m = MEANING[sp]
+        if rnd.random() < 0.08:
+            # series whose derived other end (and members) land EXACTLY on the first day of a year or month, one or more
+            # years away: intervals that divide 365 / 366 / 730 days, anchors on 1 January / 1 March / 31 December
+            from harness import refcal as R
+            from harness.common import tp_rec
+            y = rnd.choice([2019, 2020, 2021, 2022, 2000, 2001, 1900, 1901, 2004, 2005])
+            n0 = rnd.choice([R.year_start(m, y), R.year_start(m, y), R.daynum(m, y, 3, 1), R.year_start(m, y) - 1])
+            rep = rnd.choice(["cal", "cal", "ord", "week"])
+            yy, a_, b_ = R.date_of(m, rep, n0)
+            iv = rnd.choice([73, 365, 366, 183, 122, 61, 146, 360, 180, 90, 72])
+            n = rnd.choice([2, 3, 365 // iv + 1, 366 // iv + 1, 730 // iv + 1, 360 // iv + 1])
+            if 2 <= n <= 13:
+                yield {"mode": sp, "rec": {"fmt": rnd.choice([3, 4, 4]), "n": n, "a": tp_rec(rep, yy, a_, b_, sod=rnd.choice([0, 0, 21600]),
+                                                                                             zh=rnd.choice([0, 1]), zm=0), "d": {"d": iv}}}
+                continue
         if rnd.random() < 0.12:
             a = gen.rand_point(rnd, m, wide=False, whole=True, allow24=False, zones=[(0, 0), (1, 0), (-3, -30)])
             a = dict(a, prec="hms", mi=max(a["mi"], 0), ss=max(a["ss"], 0))
